@@ -1,5 +1,6 @@
 import Iavl.Lemmas.Versions
 import Iavl.Lemmas.Refine
+import Iavl.Lemmas.PinsInv
 /-
   C06 — committed versions can be read concurrently with the writer (partial).
   What the model can carry: in the version machine a committed version's contents are a *value*
@@ -43,5 +44,25 @@ theorem committed_versions_stable_under_prune (s : VState C) (n w : Nat) (hw : n
   by_cases h : latestVer s.versions ≤ n
   · rw [prune_rejected ct s n h]
   · rw [prune_effect ct s n h w]; simp [hw]
+
+/-- **a version pinned by an open export is never deleted** (Model/Pins.lean: `versionReaders`, `newExporter`,
+    `Exporter.Close` with its forget-the-tree guard, the reader checks of `DeleteVersionsTo` and
+    `DeleteVersionsFrom`): after any sequence of exports, closes - also repeated closes of one exporter -,
+    deletions, rollbacks and commits, every exporter that has not been closed still finds its version, and the
+    reader counter of every version is exactly the number of its open exporters. The steps are atomic in the
+    model; that the library's check and deletion are two steps is the known finding K9t. -/
+theorem pinned_version_survives (ops : List Pins.Op) :
+    let s := Pins.run Pins.init ops
+    (∀ e ∈ s.exporters, e.open_ = true → e.version ∈ s.versions) ∧
+    (∀ v, s.readers v = s.exporters.countP (Pins.openOn v)) :=
+  have h := Pins.run_inv Pins.init Pins.inv_init ops
+  ⟨h.alive, h.count⟩
+
+/-- non-vacuity: two exports of version 2, one of them closed twice, then a deletion up to 2 is refused; after
+    the second one is closed it goes through -/
+example :
+    let ops1 : List Pins.Op := [.commit 1, .commit 2, .commit 3, .export 2, .export 2, .close 0, .close 0, .prune 2]
+    (Pins.run Pins.init ops1).versions = [1, 2, 3] ∧ (Pins.run Pins.init (ops1 ++ [.close 1, .prune 2])).versions = [3] := by
+  decide
 
 end Iavl.Props.C06
